@@ -14,6 +14,24 @@ var (
 	rcli   *redis.Client
 )
 
+// staleKey checks the library's "fresh random key" mechanism (C19): every key a constructor or an
+// import under new keys reports as newly generated must be absent from the database as it was
+// before the call, and the keys must be pairwise different. It returns the observation to report
+// instead of success when one is not: (78 <key>).
+func staleKey(before map[string]bool, keys ...string) (Tok, bool) {
+	for i, k := range keys {
+		if before[k] {
+			return TL(TNu(78), TBs([]byte(k))), true
+		}
+		for _, k2 := range keys[:i] {
+			if k == k2 {
+				return TL(TNu(78), TBs([]byte(k))), true
+			}
+		}
+	}
+	return Tok{}, false
+}
+
 // redisReset gives every case an empty in-process Redis (miniredis) behind the package client.
 func redisReset() {
 	mrOnce.Do(func() {
